@@ -2402,7 +2402,11 @@ try_inline_default(arg_t *arg, asn1p_expr_t *expr, int out) {
 		OUT("\n");
 		OUT("/* Test default value %s */\n",
 			asn1p_itoa(expr->marker.default_value->value.v_integer));
-		if(fits_long) {
+		if(etype == ASN_BASIC_BOOLEAN) {
+			/* Any non-zero value is TRUE (BER gives 0xff) */
+			OUT("return (!*st != !%s);\n",
+				asn1p_itoa(expr->marker.default_value->value.v_integer));
+		} else if(fits_long) {
 			OUT("return (*st != %s);\n",
 				asn1p_itoa(expr->marker.default_value->value.v_integer));
 		} else {
